@@ -153,3 +153,14 @@ def shrink_candidates(line):
 
 def explain(bad):
     return {"spec": "every AnchoredSlice reads the bytes the reader delivered (minus skipped prefix / dropped suffix; the two halves after split_at), lies inside the chunk its own anchor holds, and a chunk is live exactly while a slice's anchor or the arena's cache holds it"}
+
+
+def semantic(case, obs, is_model):
+    """Return values, lengths and bytes of every slot -- not chunk numbers, offsets, cache."""
+    out = []
+    for b in canon(obs, is_model):
+        if b == [99]:
+            out.append(b)
+            break
+        out.append([b[0], [None if sl is None else [sl[0][2], sl[1]] for sl in b[1]]])
+    return out
